@@ -420,6 +420,9 @@ func (tb *TB) bin(op string, a, b *Term) *Term {
 	}
 	switch op {
 	case "bvadd":
+		if a.IsConst() && !b.IsConst() {
+			a, b = b, a // constants to the right
+		}
 		if a.IsConst() && a.Val.Sign() == 0 {
 			return b
 		}
@@ -602,6 +605,10 @@ func (tb *TB) Concat(hi, lo *Term) *Term {
 		v := new(big.Int).Lsh(hi.Val, uint(lo.Sort.W))
 		v.Or(v, lo.Val)
 		return tb.BVC(hi.Sort.W+lo.Sort.W, v)
+	}
+	// concat(ite(c,a,b), ite(c,x,y)) = ite(c, concat(a,x), concat(b,y)): keeps byte-wise stored values recognisable
+	if hi.Op == "ite" && lo.Op == "ite" && hi.Args[0] == lo.Args[0] {
+		return tb.Ite(hi.Args[0], tb.Concat(hi.Args[1], lo.Args[1]), tb.Concat(hi.Args[2], lo.Args[2]))
 	}
 	// concat(extract(h,m+1,x), extract(m,l,x)) = extract(h,l,x)
 	if hi.Op == "extract" && lo.Op == "extract" && hi.Args[0] == lo.Args[0] && hi.J == lo.I+1 {
